@@ -1445,6 +1445,25 @@ def split_validating_loops(fn: ast.AST) -> None:
             break
 
 
+def split_chained_assignments(fn: ast.AST) -> None:
+    """``a[k] = x = V`` (one plain name among the targets) is ``x = V`` ; ``a[k] = x``: the value is computed once and the
+    other targets - call-free - receive the very same object."""
+    for seq in list(_blocks(fn)):
+        k = 0
+        while k < len(seq):
+            st = seq[k]
+            if isinstance(st, ast.Assign) and len(st.targets) > 1:
+                names = [t for t in st.targets if isinstance(t, ast.Name)]
+                others = [t for t in st.targets if not isinstance(t, ast.Name)]
+                if len(names) == 1 and others and not any(_has_call(t) for t in others) and not any(names[0].id in _names(t) for t in others) and names[0].id not in _names(st.value):
+                    first = ast.copy_location(ast.Assign(targets=[names[0]], value=st.value), st)
+                    rest = [ast.copy_location(ast.Assign(targets=[t], value=ast.Name(id=names[0].id, ctx=ast.Load())), st) for t in others]
+                    seq[k:k + 1] = [first] + rest
+                    k += 1 + len(rest)
+                    continue
+            k += 1
+
+
 def split_tuple_assignments(fn: ast.AST) -> None:
     """``a, b = (A, B)`` is ``a = A`` ; ``b = B`` when no target is read by a later element (and nothing is starred)."""
     for seq in list(_blocks(fn)):
@@ -1757,6 +1776,15 @@ class SignatureIndex:
         for simple, nodes in classes.items():
             for node in nodes:
                 self.by_name.setdefault(simple, []).append(self._ctor(node, classes, 0))
+        self.by_module: dict = {}  # (module name, top-level simple name) -> parameters (packages re-exporting: see lookup)
+        for mod in modules_list:
+            for qual, node in mod.defs.items():
+                if '.' in qual:
+                    continue
+                if isinstance(node, ast.ClassDef):
+                    self.by_module[(mod.name, qual)] = self._ctor(node, classes, 0)
+                elif isinstance(node, FUNC):
+                    self.by_module[(mod.name, qual)] = [a.arg for a in list(node.args.posonlyargs) + list(node.args.args)]
         self.nested: dict = {}  # (outer class simple name, nested class simple name) -> constructor parameters
         for mod in modules_list:
             for qual, node in mod.defs.items():
@@ -1877,6 +1905,10 @@ def positional_arguments(fn: ast.AST, sigs: typing.Optional[SignatureIndex], own
         if simple is None:
             continue
         cands = sigs.by_name.get(simple)
+        if isinstance(f, ast.Attribute) and isinstance(f.value, ast.Name) and f.value.id in _ACTIVE_IMPORTS:
+            hit = sigs.by_module.get((_ACTIVE_IMPORTS[f.value.id], f.attr))
+            if hit is not None:
+                cands = [hit]  # ``alias.Name(..)`` with alias an imported module of the program: that module's own definition
         if owner and isinstance(f, ast.Attribute) and isinstance(f.value, ast.Name) and f.value.id in ('cls', 'self', owner) and len(sigs.nested.get((owner, f.attr), [])) == 1:
             cands = sigs.nested[(owner, f.attr)]  # a class nested in the method's own class
         if not cands:
@@ -1918,6 +1950,7 @@ def hoist_nested_defs(fn: ast.AST) -> None:
 
 
 _HOISTED: dict = {}
+_ACTIVE_IMPORTS: dict = {}
 
 
 def _anonymous_text(node: ast.AST, sigs: typing.Optional['SignatureIndex']) -> str:
@@ -2009,6 +2042,7 @@ def normal_form(fn: ast.AST, sigs: typing.Optional[SignatureIndex] = None, owner
         canonical_tests(node)
         boolean_algebra(node)
         loops_to_comprehensions(node)
+        split_chained_assignments(node)
         split_tuple_assignments(node)
         split_validating_loops(node)
         fold_inplace_sort(node)
@@ -2239,6 +2273,8 @@ def substitute_equivalent(mod, sigs: typing.Optional[SignatureIndex] = None) -> 
     core.strip_noops(ref_tree)
     cur = _outer_functions(mod.tree)
     ref = _outer_functions(ref_tree)
+    _ACTIVE_IMPORTS.clear()
+    _ACTIVE_IMPORTS.update(mod.imports)
     _HOISTED.clear()
     import hashlib
 
